@@ -830,6 +830,13 @@ Proof.
     apply Hsame. pose proof (mul_lt_step i (N.of_nat m) SZ Hi). lia.
 Qed.
 
+(* clusters of a FAT32 volume that format_fat marks Bad because their numbers lie in 0x0FFFFFF0 .. (0 unless the volume
+   has more than 0x0FFFFFF0 - 2 = 268435438 clusters, at most 6) *)
+Definition bad_range_clusters (total : N) : N := total + 2 - 268435440.
+
+(* the free count format_volume stores in the FS-info sector: every cluster but the root cluster and the unusable ones *)
+Definition fsinfo_free_of (total : N) : N := total - 1 - bad_range_clusters total.
+
 Definition label_bytes (o : fmt_options) : list N :=
   match o_volume_label o with Some l => sfn_encode (label_entry l) | None => [] end.
 
@@ -872,7 +879,7 @@ Lemma format_image_with_spec o b t g im0 :
       (mk_store im (q_r g * q_bps g) (q_spf g * q_bps g) (N.to_nat (q_f g))) /\
     (forall x, x < q_r g * q_bps g \/ q_r g * q_bps g + q_f g * q_spf g * q_bps g <= x ->
        img_get im x = layout_get im0 (fmt_serialize_boot (format_boot_sector_with b t))
-                        (fsinfo_bytes (q_total g - 1) 3) (label_bytes o) (fat_type_eqb t Format.Fat32) (q_bps g)
+                        (fsinfo_bytes (fsinfo_free_of (q_total g)) 3) (label_bytes o) (fat_type_eqb t Format.Fat32) (q_bps g)
                         ((q_r g + q_f g * q_spf g) * q_bps g)
                         (if fat_type_eqb t Format.Fat32 then q_spc g * q_bps g else q_rds g * q_bps g) x).
 Proof.
@@ -937,7 +944,7 @@ Proof.
             bytes_ok im6 /\
             fat_state t (q_media g) (q_total g) (entries_of g t) (if is32 then Some 2 else None) (mk_store im6 pF SZ m) /\
             forall x, x < pF \/ pF + FS <= x ->
-              img_get im6 x = if is32 && in_rng B (B + 512) x then nth (N.to_nat (x - B)) (fsinfo_bytes (q_total g - 1) 3) 0
+              img_get im6 x = if is32 && in_rng B (B + 512) x then nth (N.to_nat (x - B)) (fsinfo_bytes (fsinfo_free_of (q_total g)) 3) 0
                               else if is32 && in_rng (B + 512) (B + B) x then 0
                               else if in_rng pR (pR + (if is32 then q_spc g * B else q_rds g * B)) x then 0
                               else img_get (fs_img s1) x)
@@ -955,13 +962,16 @@ Proof.
       rewrite N.mul_0_l. rewrite u32_add_ok by lia. cbn [bind].
       assert (q_spc g * B <= 524288) as Hcs by nia.
       rewrite u32_mul_ok by lia. cbn [bind].
-      rewrite F14. cbn [bind]. rewrite u32_sub_ok by lia. cbn [bind]. rewrite ?u32_add_ok by lia. cbn [bind].
+      assert (q_total g <= 268435444) as Hmax32 by (cbn [max_clusters] in Hmax; exact Hmax).
+      rewrite F14. cbn [bind]. rewrite u32_add_ok by lia. cbn [bind]. unfold BAD_RANGE_START.
+      rewrite u32_sub_ok by lia. cbn [bind]. rewrite u32_sub_ok by lia. cbn [bind]. rewrite ?u32_add_ok by lia. cbn [bind].
+      change (q_total g - 1 - (q_total g + 2 - 268435440)) with (fsinfo_free_of (q_total g)).
       rewrite F10. unfold if32. cbn [fat_type_eqb]. rewrite N.mul_1_l. change (2 + 1) with 3.
       rewrite Hrds0, !N.add_0_r. fold pR.
       destruct G6 as (G6a & G6b & G6c). cbn [mk_store fs_base fs_size fs_mirrors] in G6a, G6b, G6c.
       set (im7 := write_zeros (fs_img s6) pR (q_spc g * B)).
-      destruct (fsinfo_bytes_facts (q_total g - 1) 3) as [Lf Bf].
-      destruct (sector_write_spec im7 B B (fsinfo_bytes (q_total g - 1) 3) HBin ltac:(apply N.mod_same; lia) Lf)
+      destruct (fsinfo_bytes_facts (fsinfo_free_of (q_total g)) 3) as [Lf Bf].
+      destruct (sector_write_spec im7 B B (fsinfo_bytes (fsinfo_free_of (q_total g)) 3) HBin ltac:(apply N.mod_same; lia) Lf)
         as (im8 & E8 & G8 & K8).
       rewrite E8. exists im8. split; [reflexivity|].
       assert (bytes_ok im7) as K7 by (apply write_zeros_bytes_ok; apply St6).
@@ -1023,7 +1033,7 @@ Record image_facts (o : fmt_options) (bs : fboot) (t : Format.fat_type) (im0 im 
              fat_state t (q_media g) (q_total g) (entries_of g t) (if fat_type_eqb t Format.Fat32 then Some 2 else None)
                (fi_fat_store im (fbs_bpb bs)) /\
              (forall x, x < q_r g * q_bps g \/ q_r g * q_bps g + q_f g * q_spf g * q_bps g <= x ->
-                img_get im x = layout_get im0 (fmt_serialize_boot bs) (fsinfo_bytes (q_total g - 1) 3) (label_bytes o)
+                img_get im x = layout_get im0 (fmt_serialize_boot bs) (fsinfo_bytes (fsinfo_free_of (q_total g)) 3) (label_bytes o)
                                  (fat_type_eqb t Format.Fat32) (q_bps g) ((q_r g + q_f g * q_spf g) * q_bps g)
                                  (if fat_type_eqb t Format.Fat32 then q_spc g * q_bps g else q_rds g * q_bps g) x) }.
 
@@ -1406,32 +1416,29 @@ Proof.
   rewrite (H c) by lia. rewrite IH by (intros x Hx; apply H; lia). reflexivity.
 Qed.
 
-(* clusters of a FAT32 volume that format_fat marks Bad because their numbers lie in 0x0FFFFFF0 .. (0 unless the volume
-   has more than 0x0FFFFFF0 - 2 = 268435438 clusters, at most 6) *)
-Definition bad_range_clusters (total : N) : N := total + 2 - 268435440.
-
 (* (d) the number of free entries among the data clusters is the cluster count minus the root cluster (FAT32) minus the
-   clusters in the BAD range; the FS-info sector of a FAT32 volume carries the cluster count minus one and the hint 3
+   clusters in the BAD range; the FS-info sector of a FAT32 volume carries exactly this number and the hint 3
    (= root cluster + 1, a data cluster) *)
 Theorem image_free_space o ts im0 bs t im : builder_range o -> ts < 4294967296 -> bytes_ok im0 ->
   format_boot_sector_validated o ts = Ok (bs, t) -> format_image o ts im0 = Ok im ->
   let b := fbs_bpb bs in
   let total := sp_clusters b in
-  count_spec fstore (val_ft (to_fat_type t)) (fi_fat_store im b) 2 (N.to_nat total) =
-    (if sp_is32 t then total - 1 else total) - bad_range_clusters total /\
+  let free := count_spec fstore (val_ft (to_fat_type t)) (fi_fat_store im b) 2 (N.to_nat total) in
+  free = (if sp_is32 t then total - 1 else total) - bad_range_clusters total /\
   (t <> Format.Fat32 -> bad_range_clusters total = 0) /\
   (t = Format.Fat32 ->
-     img_read im (fi_fsinfo_pos b) 512 = fsinfo_bytes (total - 1) 3 /\
+     img_read im (fi_fsinfo_pos b) 512 = fsinfo_bytes free 3 /\
      (forall x, 512 <= x < fb_bytes_per_sector b -> img_get im (fi_fsinfo_pos b + x) = 0) /\
-     img_u32 im (fi_fsinfo_pos b + 488) = total - 1 /\ img_u32 im (fi_fsinfo_pos b + 492) = 3 /\ 3 < total + 2).
+     img_u32 im (fi_fsinfo_pos b + 488) = free /\ img_u32 im (fi_fsinfo_pos b + 492) = 3 /\ 3 < total + 2).
 Proof.
-  intros Hb Hts Hb0 Hv E b total.
+  intros Hb Hts Hb0 Hv E b total free.
   destruct (image_facts_of o ts im0 bs t im Hb Hts Hb0 Hv E) as [K (g & Hg & Hbf & T1 & T3 & T5 & Hmed & Hrds1 & Hlen & St & L)].
   destruct (layout_lin g t Hg) as (HB & HpR & HSZ & HFS & HFS2 & H32 & H16 & Hcl & Hrl).
-  destruct St as [S1 S2 S3 S4 S5]. fold b in S1, S2, S3, S4, S5, Hbf, T1, T3, T5. unfold total. rewrite <- T5.
+  destruct St as [S1 S2 S3 S4 S5]. fold b in S1, S2, S3, S4, S5, Hbf, T1, T3, T5.
   assert (q_total g <= max_clusters t) as Hmax by apply Hg.
-  split; [|split].
-  - unfold count_spec, bad_range_clusters. rewrite sp_is32_eqb.
+  assert (free = (if sp_is32 t then total - 1 else total) - bad_range_clusters total) as Hfree.
+  { unfold free, total. rewrite <- T5.
+    unfold count_spec, bad_range_clusters. rewrite sp_is32_eqb.
     set (f := val_ft (to_fat_type t) (fi_fat_store im b)) in *.
     set (m := N.min (q_total g + 2) 268435440).
     destruct (fat_type_eqb t Format.Fat32) eqn:E32.
@@ -1446,22 +1453,27 @@ Proof.
         apply data_val_small. unfold m in *. lia.
     + assert (t <> Format.Fat32) as Hne by (intros ->; discriminate).
       assert (q_total g <= 65524) as Hsm by (destruct t; cbn [max_clusters] in Hmax; try contradiction; lia).
-      rewrite cnt_all_free; [lia|]. intros x Hx. rewrite (S4 x) by lia. apply data_val_small. lia.
-  - intros Hne. unfold bad_range_clusters. destruct t; cbn [max_clusters] in Hmax; try contradiction; lia.
+      rewrite cnt_all_free; [lia|]. intros x Hx. rewrite (S4 x) by lia. apply data_val_small. lia. }
+  split; [exact Hfree|]. split.
+  - intros Hne. unfold bad_range_clusters, total. rewrite <- T5. destruct t; cbn [max_clusters] in Hmax; try contradiction; lia.
   - intros E32. destruct (H32 E32) as (HpF8 & Hrds0 & Htot).
     assert (q_total g <= 268435444) as Hmax' by (rewrite E32 in Hmax; exact Hmax).
+    assert (free = fsinfo_free_of (q_total g)) as Hff.
+    { rewrite Hfree, E32. cbn [sp_is32]. unfold fsinfo_free_of, total. rewrite <- T5. reflexivity. }
+    rewrite Hff. unfold total. rewrite <- T5.
     unfold fi_fsinfo_pos. rewrite (bf_fsinfo _ _ _ Hbf), (bf_bps _ _ _ Hbf). unfold if32. rewrite E32. cbn [fat_type_eqb].
     rewrite N.mul_1_l.
     set (B := q_bps g) in *. set (pF := q_r g * B) in *. set (pR := (q_r g + q_f g * q_spf g) * B) in *.
-    set (fsi := fsinfo_bytes (q_total g - 1) 3) in *.
+    set (fsi := fsinfo_bytes (fsinfo_free_of (q_total g)) 3) in *.
+    assert (fsinfo_free_of (q_total g) < 4294967296) as Hfl by (unfold fsinfo_free_of, bad_range_clusters; lia).
     assert (forall i, i < 512 -> img_get im (B + i) = nth (N.to_nat i) fsi 0) as Hfs.
     { intros i Hi. rewrite L by lia. unfold layout_get. rewrite E32. cbn [fat_type_eqb andb]. rng_eval. f_equal. lia. }
     assert (forall x, 512 <= x < B -> img_get im (B + x) = 0) as Hpad.
     { intros x Hx. rewrite L by lia. unfold layout_get. rewrite E32. cbn [fat_type_eqb andb]. rng_eval. reflexivity. }
-    destruct (fsinfo_words (q_total g - 1) 3) as (_ & _ & W3 & W4 & _). cbv zeta in W3, W4. fold fsi in W3, W4.
+    destruct (fsinfo_words (fsinfo_free_of (q_total g)) 3) as (_ & _ & W3 & W4 & _). cbv zeta in W3, W4. fold fsi in W3, W4.
     split; [|split; [exact Hpad|split; [|split]]].
     + apply img_read_eq; [reflexivity|]. intros i Hi. rewrite Hfs by lia. f_equal. lia.
-    + apply img_u32_bytes; [lia|]. rewrite <- W3.
+    + apply img_u32_bytes; [exact Hfl|]. rewrite <- W3.
       replace (B + 488 + 1) with (B + 489) by lia. replace (B + 488 + 2) with (B + 490) by lia. replace (B + 488 + 3) with (B + 491) by lia.
       rewrite !Hfs by lia. reflexivity.
     + apply img_u32_bytes; [lia|]. rewrite <- W4.
@@ -1491,23 +1503,18 @@ Proof.
 Qed.
 
 (* ================================================================== FS-info count vs. the table *)
-(* The count the FS-info sector carries is the number of free entries of the table unless the volume reaches the BAD
-   range ... *)
+(* the count the FS-info sector carries is the number of free entries of the table, for every FAT32 volume *)
 Corollary image_fsinfo_count_exact o ts im0 bs im : builder_range o -> ts < 4294967296 -> bytes_ok im0 ->
   format_boot_sector_validated o ts = Ok (bs, Format.Fat32) -> format_image o ts im0 = Ok im ->
-  sp_clusters (fbs_bpb bs) + 2 <= 268435440 ->
   img_u32 im (fi_fsinfo_pos (fbs_bpb bs) + 488) =
     count_spec fstore val32 (fi_fat_store im (fbs_bpb bs)) 2 (N.to_nat (sp_clusters (fbs_bpb bs))).
 Proof.
-  intros Hb Hts Hb0 Hv E Hsmall.
-  destruct (image_free_space o ts im0 bs Format.Fat32 im Hb Hts Hb0 Hv E) as (C & _ & F). cbv zeta in C, F.
-  destruct (F eq_refl) as (_ & _ & W & _). rewrite W. cbn [to_fat_type sp_is32] in C.
-  change (val_ft Fat.Fat32) with val32 in C. rewrite C. unfold bad_range_clusters. lia.
+  intros Hb Hts Hb0 Hv E.
+  destruct (image_free_space o ts im0 bs Format.Fat32 im Hb Hts Hb0 Hv E) as (_ & _ & F). cbv zeta in F.
+  destruct (F eq_refl) as (_ & _ & W & _). exact W.
 Qed.
 
-(* ... and it is NOT for the six largest cluster counts a FAT32 volume can have: format_fat marks the data clusters
-   0x0FFFFFF0 .. as Bad, the FS-info sector still counts them as free.  Witness: 270532604 sectors of 512 bytes,
-   512-byte clusters, one FAT: 268435444 clusters, 6 of them Bad, FS-info says 268435443 free, the table has 268435437. *)
+(* the largest FAT32 volume: 270532604 sectors of 512 bytes, 512-byte clusters, one FAT *)
 Definition bad_range_request : fmt_options :=
   {| o_bytes_per_sector := 512; o_total_sectors := None; o_bytes_per_cluster := Some 512; o_fat_type := Some Format.Fat32;
      o_max_root_dir_entries := 512; o_fats := 1; o_media := 248; o_sectors_per_track := 32; o_heads := 64;
@@ -1521,31 +1528,31 @@ Proof.
     match goal with H : Some _ = Some _ |- _ => injection H as <- end; try reflexivity; lia.
 Qed.
 
-Lemma image_fsinfo_count_refuted :
-  exists o ts bs, builder_range o /\ ts < 4294967296 /\ format_boot_sector_validated o ts = Ok (bs, Format.Fat32) /\
-    sp_clusters (fbs_bpb bs) = 268435444 /\
+(* on it 6 data clusters are Bad; the FS-info count is 268435437 = the table's count (the formula total - 1 of the
+   library before the fix of format_volume gave 268435443) *)
+Lemma bad_range_volume_counts :
+  exists bs, format_boot_sector_validated bad_range_request 270532604 = Ok (bs, Format.Fat32) /\
+    sp_clusters (fbs_bpb bs) = 268435444 /\ bad_range_clusters (sp_clusters (fbs_bpb bs)) = 6 /\
     forall im0, bytes_ok im0 ->
-      exists im, format_image o ts im0 = Ok im /\
-        img_u32 im (fi_fsinfo_pos (fbs_bpb bs) + 488) = 268435443 /\
+      exists im, format_image bad_range_request 270532604 im0 = Ok im /\
+        img_u32 im (fi_fsinfo_pos (fbs_bpb bs) + 488) = 268435437 /\
         count_spec fstore val32 (fi_fat_store im (fbs_bpb bs)) 2 (N.to_nat (sp_clusters (fbs_bpb bs))) = 268435437 /\
         (forall x, 268435440 <= x < 268435446 -> val32 (fi_fat_store im (fbs_bpb bs)) x = Bad).
 Proof.
-  exists bad_range_request, 270532604.
   destruct (format_boot_sector_validated bad_range_request 270532604) as [[bs t]| | |] eqn:Ev;
     [|vm_compute in Ev; discriminate..].
   assert (t = Format.Fat32 /\ sp_clusters (fbs_bpb bs) = 268435444) as [-> Hc].
   { vm_compute in Ev. injection Ev as <- <-. split; vm_compute; reflexivity. }
-  exists bs. split; [exact bad_range_request_in_range|]. split; [lia|]. split; [reflexivity|]. split; [exact Hc|].
-  intros im0 Hb0.
-  destruct (format_image_facts bad_range_request 270532604 im0 bs Format.Fat32 bad_range_request_in_range ltac:(lia) Hb0 Ev)
+  exists bs. split; [reflexivity|]. split; [exact Hc|]. split; [rewrite Hc; reflexivity|].
+  intros im0 Hb0. assert (270532604 < 4294967296) as Hts by lia.
+  destruct (format_image_facts bad_range_request 270532604 im0 bs Format.Fat32 bad_range_request_in_range Hts Hb0 Ev)
     as (im & E & _).
   exists im. split; [exact E|].
-  assert (270532604 < 4294967296) as Hts by lia.
   destruct (image_free_space bad_range_request 270532604 im0 bs Format.Fat32 im bad_range_request_in_range Hts Hb0 Ev E) as (C & _ & F).
   cbv zeta in C, F. destruct (F eq_refl) as (_ & _ & W & _).
   destruct (image_fat bad_range_request 270532604 im0 bs Format.Fat32 im bad_range_request_in_range Hts Hb0 Ev E) as (_ & _ & D & _).
-  cbn [to_fat_type sp_is32] in C, D. change (val_ft Fat.Fat32) with val32 in C, D.
-  rewrite Hc in *. split; [rewrite W; reflexivity|]. split; [rewrite C; reflexivity|].
+  cbn [to_fat_type sp_is32] in C, D, W. change (val_ft Fat.Fat32) with val32 in C, D, W.
+  rewrite Hc in *. split; [rewrite W, C; reflexivity|]. split; [rewrite C; reflexivity|].
   intros x Hx. rewrite (D x ltac:(lia)). destruct (N.eqb_spec x 2); [lia|]. cbn [andb].
   unfold data_val. destruct (268435440 <=? x) eqn:Ex; [reflexivity|apply N.leb_gt in Ex; lia].
 Qed.
